@@ -6,6 +6,8 @@ operation list with `run`.
 op := ["start", h, task, type, fields] | ["enter", h] | ["exit", h, exn|None] | ["ctxenter", h] | ["ctxexit"]
     | ["finish", h, exn|None] | ["log", type, fields] | ["actlog", h, type, fields] | ["tb", exn]
     | ["add", dests] | ["remove", id] | ["globals", fields] | ["probe"]
+    | ["register", cls, extractor]      register_exception_extractor in the middle of the run (model: the
+                                        configuration changes between two segments of the operation list)
 case := {"classes", "registry", "ops": [op...]}     (one execution context)
 """
 import json
@@ -54,10 +56,29 @@ def dest_ids(case):
     return [d[0] for c, o in ctx_ops(case) if o[0] == "add" for d in o[1] if d[1][0] not in ("file",)]
 
 
+def segments(case):
+    """[(registry in force, [(ctx, op)])]: the operation list cut at every mid-run extractor registration"""
+    reg = list(case.get("registry", []))
+    segs = [(list(reg), [])]
+    for c, o in ctx_ops(case):
+        if o[0] == "register":
+            reg = reg + [[o[1], o[2]]]
+            segs.append((list(reg), []))
+        else:
+            segs[-1][1].append((c, o))
+    return segs
+
+
+def model_state_expr(case):
+    expr = "init_state"
+    for reg, ops in segments(case):
+        fake = {"classes": case["classes"], "registry": reg}
+        expr = "(run %s %s %s)" % (to_coq(progs.c_config(fake)), to_coq([(Nat(c), c_op(o)) for c, o in ops]), expr)
+    return expr
+
+
 def model_expr(case):
-    ops = [(Nat(c), c_op(o)) for c, o in ctx_ops(case)]
-    fake = {"classes": case["classes"], "registry": case.get("registry", [])}
-    return "observe (run %s %s init_state) %s" % (to_coq(progs.c_config(fake)), to_coq(ops), to_coq([Nat(i) for i in dest_ids(case)]))
+    return "observe %s %s" % (model_state_expr(case), to_coq([Nat(i) for i in dest_ids(case)]))
 
 
 def model_obs(case, parsed):
@@ -124,6 +145,8 @@ class _Runner(object):
                 it.call("write_traceback", el.write_traceback)
         elif k in ("add", "remove", "globals"):
             it.preop(o)
+        elif k == "register":
+            el.register_exception_extractor(it.classes[o[1]], it.make_extractor(o[2]))
         elif k == "probe":
             a = el.current_action()
             got = None if a is None else it.handle_of.get(id(a), -1)
@@ -149,7 +172,8 @@ def ctx_ops(case):
     return [(o[0], o[1]) if case.get("mt") else (0, o) for o in case["ops"]]
 
 
-def run_case(case):
+def run_case(case, post=None):
+    """`post(runner, obs)`: optional hook run in the worker after the script finished (extra observations)"""
     r = _Runner(case)
     ops = ctx_ops(case)
     if not case.get("mt"):
@@ -170,7 +194,10 @@ def run_case(case):
             drive(False)
         except progs.LoggingRaised:
             pass
-        return r.finish(case)
+        obs = r.finish(case)
+        if post:
+            post(r, obs)
+        return obs
     # one real thread per execution context; the controller hands out one operation at a time
     import threading
     ctxs = sorted({c for c, _ in ops})
@@ -225,6 +252,8 @@ def run_case(case):
     obs = r.finish(case)
     if failed:
         obs["notes"].append("thread_failed:%r" % failed)
+    if post:
+        post(r, obs)
     return obs
 
 
@@ -233,7 +262,7 @@ def project(case, obs):
 
 
 # ---------------------------------------------------------------------------
-def gen_script(rng, late_add=False, n_ops=14, fault=0.5):
+def gen_script(rng, late_add=False, n_ops=14, fault=0.5, p_register=0.0, p_exn=0.3):
     g = progs.Gen(rng)
     g.class_ids = g.gen_classes(3) + [2, 8, 9]
     dests = progs.gen_dests(rng, g, rng.randrange(1, 3), fault)
@@ -259,9 +288,15 @@ def gen_script(rng, late_add=False, n_ops=14, fault=0.5):
             open_with.append(h)
         elif r < 0.6 and open_with:
             h = open_with.pop()
-            ops.append(["exit", h, g.exn() if rng.random() < 0.3 else None])
+            ops.append(["exit", h, g.exn() if rng.random() < p_exn else None])
         elif r < 0.8:
-            ops.append(["log", rng.randrange(10, 14), fields()])
+            if rng.random() < p_register:
+                # an extractor registered in the middle of the run, possibly for a class whose subclasses
+                # (or which itself) already failed an action or went through write_traceback
+                x = ["fields", g.fields(2, 40, 46)] if rng.random() < 0.85 else ["raise", g.exn(cls=rng.choice([8, 9]))]
+                ops.append(["register", rng.choice(g.class_ids + [2]), x])
+            else:
+                ops.append(["log", rng.randrange(10, 14), fields()])
         elif r < 0.85:
             ops.append(["tb", g.exn()])
         elif late_add and r < 0.95 and not any(o[0] == "add" for o in ops):
@@ -271,7 +306,7 @@ def gen_script(rng, late_add=False, n_ops=14, fault=0.5):
         ops.append(["exit", open_with.pop(), None])
         ops.append(["probe"])
     for h in created:
-        ops.append(["finish", h, None])
+        ops.append(["finish", h, g.exn() if rng.random() < p_exn and p_register else None])
     if late_add and not any(o[0] == "add" for o in ops):
         ops.append(["add", dests])
     return {"classes": g.classes, "registry": [], "ops": ops}
